@@ -77,6 +77,16 @@ def plan(tier, seed):
         if q % 2: mf["pyproject.toml"] = b64(('[project]\nname = "x"\ndependencies = [\n  "requests",\n' + "".join(f'  "{d}",\n' for d in declared) + "]\n").encode())
         files = {f"m_{k.split('/')[1].replace('-', '_')}.py": b64(DEPSRC[k]) for k in ks}; files.update(mf)
         extra.append((ks, files))
+    # SAST-driven codemods of DIFFERENT tools in one invocation (Sonar issues + hotspots, Semgrep SARIF, DefectDojo), findings of the tools in partly different files
+    from vf.checks import c11 as _c11
+    SAST_KS = ["sonar:python/url-sandbox", "sonar:python/secure-random", "semgrep:python/url-sandbox", "semgrep:python/django-secure-set-cookie", "defectdojo:python/django-secure-set-cookie"]
+    for q in range(2 if tier == "quick" else 10):
+        sfiles, sres = _c11.sast_project(rnd, rnd.choice((9, 12)))
+        ks = SAST_KS[:] if q % 2 == 0 else rnd.sample(SAST_KS, len(SAST_KS))
+        flags = ["--sonar-issues-json", "{res}/issues.json", "--sonar-hotspots-json", "{res}/hotspots.json", "--sarif", "{res}/semgrep.sarif", "--defectdojo-findings-json", "{res}/dd.json"]
+        fs = {rel: b64(data) for rel, data in sfiles.items()}
+        jobs.append({"id": f"sast{q}|batch", "pair": f"s{q}", "kind": "batch", "ks": ks, "files": fs, "result_files": sres, "argv": ["{proj}", "--output", "{out}"] + flags + ["--codemod-include", ",".join(ks)], "monitors": {"snap": False, "pipe": False}})
+        jobs.append({"id": f"sast{q}|chain", "pair": f"s{q}", "kind": "chain", "ks": ks, "files": fs, "result_files": sres, "argv": [], "steps": [["{proj}", "--output", "{out}"] + flags + ["--codemod-include", k] for k in ks], "monitors": {"snap": False, "pipe": False}})
     base = ["{proj}", "--output", "{out}"]
     for q, (ks, files) in enumerate(extra):
         jobs.append({"id": f"xseq{q}|batch", "pair": f"x{q}", "kind": "batch", "ks": ks, "files": files, "argv": base + ["--codemod-include", ",".join(ks)], "monitors": {"snap": False, "pipe": False}})
